@@ -176,7 +176,7 @@ def behaviour_to_stream(beh, rng, k):
   for fr, ws in lines:
     if ws:
       fixed.append((fr, ws))
-  return {"lines": fixed, "df": bool(df), "parity": k % 3 != 0, "align": [None, "left", "center", "right", "auto"][k % 5],
+  return {"lines": fixed, "df": bool(df), "parity": (True, False, "mixed", True, True)[k % 5], "align": [None, "left", "center", "right", "auto"][k % 5],
           "features": [], "style": "tlc"}
 
 
@@ -453,7 +453,7 @@ def run(ctx):
       mine.append(s)
     mine.sort(key=lambda x: (x["df"], x["lines"]))      # TLC prints in worker order: make the sample reproducible
     for idx, s in enumerate(mine):
-      s["parity"] = idx % 3 != 0
+      s["parity"] = (True, False, "mixed", True, True)[idx % 5]
       s["align"] = [None, "left", "center", "right", "auto"][idx % 5]
     ctx.count("behaviours:" + name, len(mine))
     # quick tier: a seeded sample of the behaviours is replayed (all of them at the thorough tier, up to 6000 per model)
